@@ -39,6 +39,7 @@ const (
 	KDoctype
 	KStmt // `- x := expr` style statement without block
 	KRubyComment
+	KBlank // a line holding only the indentation of its block (what auto-indenting editors leave behind)
 	KRaw // verbatim lines (fault injection): Lines of Code, each prefixed with the current indentation unless RawAbs
 )
 
@@ -467,6 +468,9 @@ func (p *Printer) node(n *Node, indent int) {
 	case KChildren:
 		p.feat("children")
 		p.w(tabs + "= @children\n")
+	case KBlank:
+		p.feat("blank-indented-line")
+		p.w(tabs + "\n")
 	case KRaw:
 		for _, l := range strings.Split(n.Code, "\n") {
 			if n.RawAbs {
